@@ -149,7 +149,7 @@ def run(ctx):
     cov["mesh_kinds"] = dict(mhist)
     cov["findings_seen"] = dict(nfind)
     cov["oracle_points_classified"] = sum(int(m.group(1)) for c in cs for m in [re.search(r"tested=(\d+)", c["tag"])] if m)
-    cov["exhaustive"] = {"invalid_args_table": "all 4^3 class combinations for Cube and Cylinder, 4 for Sphere, 2x4x3 for Extrude, 5 polygon-side patterns x 4 angle classes for Revolve",
+    cov["exhaustive_parts"] = {"invalid_args_table": "all 4^3 class combinations for Cube and Cylinder, 4 for Sphere, 2x4x3 for Extrude, 5 polygon-side patterns x 4 angle classes for Revolve",
                          "tet tables": "all 16 sign patterns x 36 edge pairs; 6 tetrahedra x 6 edges (decide)"}
     cov["rule"] = ("Extrude: 1-3 star outers with 0-3 holes and random collinear points x nDivisions 0..3 x twist {0, random, multiples of 90} x scaleTop {cone, 1, uniform, non-uniform, negative}; "
                    "Revolve: off-axis, axis-crossing, two/one axis vertices, three consecutive axis vertices, axis vertex next to a clipped one x degrees {360, 270, 180, 90, 33.3, 400} x segments {default, 3..14}; "
